@@ -25,7 +25,13 @@ EXPECT = {
  'C18/1': (['C18'], ''), 'C18/2': (['C18'], ''), 'C19/1': (['C19'], ''), 'C19/2': (['C19'], 'missed at first: added arbitrary positive weights'),
  'C20/1': (['C20'], 'missed at first (text import was declared not encodable): added an environment model of std::ifstream on an abstract file (lines / numbers) and the import-logic jobs'), 'C20/2': (['C20'], ''),
 }
+# third round (one more change per property, made against the repaired head by fresh sub-agents that were told the titles of the first two): filled in after the checks were run against them
+EXPECT3 = {}
+try: EXPECT3 = json.load(open(os.path.join(os.path.dirname(os.path.abspath(__file__)), 'seeded_round3.json')))
+except Exception: pass
+for k3, v3 in EXPECT3.items(): EXPECT[k3] = (v3[0], v3[1])
 for key, (checks, note) in sorted(EXPECT.items()):
+    if not os.path.exists(os.path.join(SRC, key, 'meta.json')): continue
     src = os.path.join(SRC, key); dst = os.path.join('/verif/seeded', key.replace('/', '-')); os.makedirs(dst, exist_ok=True)
     m = json.load(open(os.path.join(src, 'meta.json')))
     conf = open(os.path.join(SRC, 'confirm', key.replace('/', '_') + '.txt')).read().strip()
